@@ -338,6 +338,33 @@ Proof.
   destruct (interval <=? 0)%Z eqn:He; [|reflexivity]. apply Z.leb_le in He. lia.
 Qed.
 
+(* ---------- histories: the successive sessions of ONE client object ---------- *)
+
+(* Every session has its own quit channel and its own closer (Model/Keepalive.v, client_quits: what
+   newKeepaliveQuit / keepaliveStop do to the client's state).  Over any history of sessions on one client,
+   each ended with one or more requests to stop its keep-alive (Disconnect, the receiver, or both): the quit
+   of the k-th session is closed - whatever k, not only for the first - and so, with the loop of that session
+   in any phase at that moment and whatever follows, at most the one ping already past its poll goes out and
+   the loop calls no Close: no keep-alive once session k has ended, none follows the transport to session k+1. *)
+Theorem C18_every_session_stops_its_loop : forall (h : list nat) k,
+  (k < length h)%nat ->
+  quit_closed (client_quits [] (history_ops h)) k = true /\
+  forall fail np ph pending evs,
+    (count is_ping (snd (ka_run fail (Running np)
+        (resolve ph pending (quit_closed (client_quits [] (history_ops h)) k) evs))) <= b2n (past_poll ph))%nat /\
+    count is_close (snd (ka_run fail (Running np)
+        (resolve ph pending (quit_closed (client_quits [] (history_ops h)) k) evs))) = 0%nat.
+Proof.
+  intros h k Hk. rewrite (history_every_quit_closed h k Hk). split; [reflexivity|].
+  intros fail np ph pending evs. split; [apply pings_once_closed|apply no_close_once_closed].
+Qed.
+
+(* The quit of a new session starts open, and establishing and ending a session leaves the channels of
+   all the earlier sessions as they were: a closer acts on its own channel only. *)
+Theorem C18_session_quit_is_its_own : forall n st,
+  client_quits st [OpNew] = false :: st /\ tl (client_quits st (session_ops n)) = st.
+Proof. exact client_session_frame. Qed.
+
 (* non-vacuity: the third ping fails while the schedule goes on offering ticks and quit; quit
    closed between the poll and the ping: that ping still goes out (and is the only one), its
    failure is not answered by Close even when the transport was re-dialled (first refused,
@@ -356,7 +383,9 @@ Example C18_example :
     (resolve PIdle false false (round true ++ [EFire; ESelect true; ECloseQuit; EPoll; EPing; ERecheck]))
   = [APingOk; ATickerStop; AReturn] /\
   wire [APingOk; APingOk; ATickerStop; AReturn] = [10%N; 10%N] /\
-  loops_of [AttHookFails; AttConnectFails; AttOk] = 1 /\ client_interval (-5) = 30000000%Z.
+  loops_of [AttHookFails; AttConnectFails; AttOk] = 1 /\ client_interval (-5) = 30000000%Z /\
+  client_quits [] (history_ops [0; 1; 0]%nat) = [true; true; true] /\
+  client_quits [] (session_ops 1 ++ [OpNew]) = [false; true].
 Proof. repeat split; reflexivity. Qed.
 
 Print Assumptions C18_one_ping_per_tick.
@@ -386,3 +415,5 @@ Print Assumptions C18_disconnect_stops_keepalive_first.
 Print Assumptions C18_client_interval.
 Print Assumptions C18_nonpositive_interval.
 Print Assumptions C18_positive_interval.
+Print Assumptions C18_every_session_stops_its_loop.
+Print Assumptions C18_session_quit_is_its_own.
